@@ -18,7 +18,8 @@ ASSUMPTIONS = ['a password of the form $HEX[...] cannot be written plainly in th
 NSHARDS = 16
 POOL = ['password', 'Pass word', ' lead', 'trail ', '  two  ', 'пароль', 'café', '$HEX[41', 'x$HEX[41]', '$HEX[zz]', '12 abc', '7', 'a]', '$HEX[4142]', ' $HEX[41]', '$HEX[41]x', '$HEX[4142] ',
         '   ',      # a password that is nothing but blanks is a password (only the empty line is not)
-        '\ufeffpw']      # U+FEFF as the first character of a password: a byte-order mark only at the very start of a utf-16 / utf-32 file, a character everywhere else
+        '\ufeffpw',
+        'e\u0301\u212b']      # a decomposed letter and a compatibility character (ANGSTROM SIGN): text is taken as it is written, not normalised      # U+FEFF as the first character of a password: a byte-order mark only at the very start of a utf-16 / utf-32 file, a character everywhere else
 JUNK = [('blank', b''), ('tab', b'ab\tcd'), ('nel', 'ab\u0085cd'), ('ls', 'ab\u2028cd'), ('ps', 'ab\u2029cd'),
         ('undecodable', {'utf-8': b'ab\xff\xfecd', 'cp1251': b'ab\x98cd'}), ('broken_hex', b'$HEX[4g]'), ('odd_hex', b'$HEX[414]'),
         # well-formed hex whose bytes are not text in the file's encoding: cut inside a multi-byte character, a lone continuation byte, an invalid byte
